@@ -8,7 +8,7 @@ TECH = "deterministic simulation with fault injection: real build()/clean() on a
 
 CHECKS = {
  "C01": ("exploration", "§C01", TECH + "seeded histories, oracle = independent from-scratch reference model",
-         "Seeded search over histories x schedules: after every build that returns Ok each in-scope target is compared byte-for-byte with an independent reference evaluation of the rule graph on the current sources. Sampling, not proof; bounds: <= 8/14 rules, <= 6/12 operations.",
+         "Seeded search over histories x schedules: after every build that returns Ok each in-scope target is compared byte-for-byte with an independent reference evaluation of the rule graph on the current sources. Sampling, not proof; bounds: <= 8/14 rules (one case in 250: a crowd of 40-220 rules over up to 300 leaves), <= 8/12 operations (occasionally 3x; soaks of 20-2100 source states); configuration (ruler directory, rules-file names, time origin), name shapes (long, non-ASCII, outside the workspace) and directory sources are varied per case.",
          "reference model + stub command interpreter implement the same content function; clock model 'distinct' (the property's assumption); SimSystem faithful to RealSystem (conformance probe)"),
  "C02": ("exploration", "§C02", TECH + "command log + mutation log checked against the harness's own execution record",
          "Every build's command log is checked for at-most-once, no-change rebuilds must run nothing and mutate nothing outside the ruler directory, and must-not-run obligations are derived from the harness's own record of earlier successful executions and the pre-build cache contents.",
@@ -17,13 +17,13 @@ CHECKS = {
          "For each (scenario, pre-state) the same build is executed under K schedules (serial, reverse, uniform, sticky, PCT, starvation); at every command start the declared sources' contents are compared with the reference model, must never be touched afterwards, and must have been examined by another thread before.",
          "visible-operation granularity (every System call, channel operation, thread start/finish); oracle (c) assumes up-to-dateness is established through the System seam"),
  "C04": ("exploration", "§C04", TECH + "failing rules / missing leaves under many schedules + follow-up histories; oracle = reference model's failure set",
-         "Graphs with failing commands, ungenerated targets and missing leaves are built under K schedules; the reported error multiset must equal the reference model's, cancelled rules must run nothing, independent rules must be correct, the failure must be retried by the next build and a repaired build must succeed.",
+         "Graphs with failing commands, ungenerated targets and missing leaves are built under K schedules; the reported error multiset must equal the reference model's and the rendered report must carry every one of them, cancelled rules must run nothing, independent rules must be correct, the failure must be retried by the next build and a repaired build must succeed.",
          "a failing stub command writes nothing (the property's assumption)"),
  "C05": ("exploration", "§C05", TECH + "scheduler-level deadlock / step-bound / panic / channel-error detection over many seeded schedules",
-         "The scheduler owns every thread and channel, so a deadlock is a state with no runnable thread, a livelock a step-bound overrun, and every panic and failed send/recv is observed directly; explored over valid, failing, goal-restricted and invalid graphs, build and clean, K schedules each.",
+         "The scheduler owns every thread and channel, so a deadlock is a state with no runnable thread, a livelock a step-bound overrun, and every panic and failed send/recv is observed directly; explored over valid, failing, goal-restricted and invalid graphs, damaged state files, removed output directories and a directory at a target's path, build and clean, K schedules each.",
          "step bound 60 000 visible operations per invocation (largest observed correct run is far below)"),
  "C06": ("exploration", "§C06", TECH + "differential: same pre-state snapshot under K schedules, verdict and workspace bytes compared with the serial schedule",
-         "For scenarios biased to equal contents and cleaned states, the same build from the same disk snapshot is executed under K schedules; verdict (error multiset) and final bytes+exec bit of every workspace file must be identical to the serial schedule's.",
+         "For scenarios biased to equal contents and cleaned states (sometimes with the emptied output directories removed by the user), the same build from the same disk snapshot is executed under K schedules; verdict (error multiset) and final bytes+exec bit of every workspace file must be identical to the serial schedule's.",
          "ruler directory compared only informationally"),
  "C07": ("exploration", "§C07", TECH + "cache audit with an independent SHA-256/base-62 after every invocation and at every rename into/out of the cache",
          "After every invocation every cache entry is re-hashed with the harness's own SHA-256 and base-62; additionally every rename into the cache is checked at the moment it happens, and every recovered target against the recorded output.",
@@ -41,16 +41,16 @@ CHECKS = {
          "For every scenario of a seeded corpus the victim build/clean is executed under serial and sampled schedules; the disk is snapshotted before every mutation and at torn prefixes of every write; each crash image is audited (C07, C08) and then recovered by a fresh build that must succeed and satisfy C01; a third of the recovered workspaces are followed further (goal-restricted recovery, full build, clean, build, edit, build, revert, build) and a sample of recovery builds is killed again.",
          "kill, not power loss; quick tier caps crash states per execution"),
  "C16": ("fault_enumeration", "§C16", TECH + "storage faults on state files (every strict prefix, bit flips, garbage) written/read through the simulated disk by the real writers/readers",
-         "Random rule histories and file-state tables are written by the real writers with short writes, then read back by the real readers with short reads after: no fault (must round-trip), every strict prefix (must be rejected), single-bit flips and random garbage (must not panic).",
+         "Random rule histories and file-state tables are written by the real writers with short writes, then read back by the real readers with short reads after: no fault (must round-trip), every strict prefix (must be rejected), single-bit flips and random garbage (must not panic); one instance in 40 is a file beyond 64 KiB, 1 MiB or 16 MiB, and every pair the harness inserted must be found again.",
          "exhaustive for the prefix space and the bit-flip space of each small instance"),
  "C17": ("exploration", "§C17", TECH + "undeclared-input change as the injected fault; oracle = harness's own record of outputs",
-         "Rules with an undeclared input are built, the input is changed, re-execution is forced, and the build must fail with exactly one Contradiction naming exactly the differing targets; after restoring the input the original record must still be in force.",
+         "Rules with an undeclared input are built, the input is changed, re-execution is forced, and the build must fail with exactly one Contradiction naming exactly the differing targets; after restoring the input the original record must still be in force; in a third of the histories the rule is first built from other states of its declared sources, with cache evictions in between.",
          "forced re-execution = tampered/deleted target with its cache entry removed"),
  "C18": ("exploration", "§C18", TECH + "differential: each history run as is and with the file-state table erased before every build, under two clock models",
-         "Verdict and workspace bytes after every build must agree between the two executions, under the 'distinct', the 'unordered' and the coarse 'tick' clock; policy schedules (serial, reverse) so that schedule effects cannot masquerade as table effects; a probe for table entries attached to a different file guides extension of histories in which nothing has differed yet.",
+         "Verdict and workspace bytes after every build must agree between the two executions, under the 'distinct', the 'unordered' and the coarse 'tick' clock; policy schedules (serial, reverse) so that schedule effects cannot masquerade as table effects; a probe for table entries attached to a different file guides extension of histories in which nothing has differed yet; a third of the targeted histories have a bystander rule that fails in some builds.",
          "tick clock: one tick per user action or ruler invocation"),
  "C19": ("exploration", "§C19", TECH + "real route closures driven in memory (warp::test) on ruler directories produced by simulated histories; oracle = independent listing of the disk",
-         "Every cached hash, every recorded (rule, sources) pair, absent names, names whose value is a present hash + 2^256, and hostile/malformed paths are requested from one long-lived server instance per directory, while further builds/cleans change the directory between requests; status and body are compared with an independent model of the directory recomputed per phase.",
+         "Every cached hash, every recorded (rule, sources) pair, absent names, names whose value is a present hash + 2^256, hostile/malformed paths, the same names with conditional/range/proxy headers, as HEAD and with query strings, and occasionally a cache entry of 16 MiB + 1 or 129 MiB + 7 bytes are requested from one long-lived server instance per directory, while further builds/cleans change the directory between requests; status and body are compared with an independent model of the directory recomputed per phase.",
          "transport stubbed (no TCP); everything behind the filter is real"),
  "C20": ("exploration", "§C20", TECH + "recorded Printer output compared with what the event history says happened to each target",
          "For every successful rule exactly one status per target, Built iff its command ran, Recovered iff a cache->target rename happened, Up-to-date iff nothing touched it; none for failed/cancelled rules.",
